@@ -88,12 +88,23 @@ INSIDE = {
     'p%41.txt': b'inside: literal percent-four-one\n',
     'pA.txt': b'inside: plain pA\n',
     '.hidden': b'inside: dot file\n',
+    # directories and files inside the root that are named like the mount points (a request below the mount point may name them again),
+    # next to same-named entries one level up with other content
+    'x.txt': b'inside: top-level x.txt\n',
+    'static/x.txt': b'inside: static/x.txt, in a directory named like a mount point\n',
+    'static/index.html': b'<html>inside: default document of the directory named static</html>\n',
+    'sub/staticfile.txt': b'inside: sub/staticfile.txt, a name that starts like a mount point\n',
+    'subfile.txt': b'inside: top-level subfile.txt\n',
+    'a/b/x.txt': b'inside: a/b/x.txt, in directories named like a two-level mount point\n',
+    'a/x.txt': b'inside: a/x.txt\n',
 }
-DIRS = {'': set(), 'sub': set(), 'sub2': set()}
+DIRS = {'': set()}
 for _k in INSIDE:
-    _d, _, _n = _k.rpartition('/')
-    DIRS[_d].add(_n)
-DIRS[''].update(['sub', 'sub2'])
+    _parts = _k.split('/')
+    for _i in range(len(_parts)):
+        DIRS.setdefault('/'.join(_parts[:_i]), set()).add(_parts[_i])
+        if _i < len(_parts) - 1:
+            DIRS.setdefault('/'.join(_parts[:_i + 1]), set())
 RANGE_FILES = ['e0.txt', 'e1.txt', 'f10.txt', 'big.txt', 'sub2/other.bin', 'a+b.txt']
 
 
@@ -691,7 +702,7 @@ def attribute(world, case):
 # ------------------------------------------------------------------------------------------------
 HOSTILE = ['..', '.', '', '%2e%2e', '%252e%252e', '..%2f', '\\', '..\\', '%2e', '..%5c', '%2e%2e%2f', '.%2e', '%2E%2E',
            '..%2f..', '%c0%ae%c0%ae', '..;', '%2e%2e%5c']
-INSIDE_NAMES = ['a+b.txt', 'a%2Bb.txt', 'c+d.txt', 'c%20d.txt', 'only+plus.txt', 'only%20plus.txt', 'sub', 'sub2', 'f10.txt', 'big.txt', 'in.txt', 'deep.txt', 'index.html', 'e0.txt', 'a%20b.txt', 'p%2541.txt',
+INSIDE_NAMES = ['static', 'static', 'x.txt', 'x.txt', 'staticfile.txt', 'subfile.txt', 'a', 'b', 'a+b.txt', 'a%2Bb.txt', 'c+d.txt', 'c%20d.txt', 'only+plus.txt', 'only%20plus.txt', 'sub', 'sub2', 'f10.txt', 'big.txt', 'in.txt', 'deep.txt', 'index.html', 'e0.txt', 'a%20b.txt', 'p%2541.txt',
                 'pA.txt', '.hidden', 'nonexistent']
 OUTSIDE_NAMES = ['{doc}', '{sib}', '{par}', '{parext}', 'secret.txt', 'secret2.txt', 'x', 'y']
 EXH = ['..', '.', '', '%2e%2e', '%252e%252e', '..%2f', '\\', '..\\', 'sub', 'f10.txt', '{sib}', 'secret.txt', '{doc}']
@@ -785,6 +796,15 @@ def corpus():
                 cases.append(dict(path_case(fe, li, mount, True, ['']), path=mount))
             for t in ['f10.txt', '../secret.txt', 'sub/']:
                 cases.append(path_case(fe, li, '/', True, t.split('/')))
+            # below the mount point the path names the mount point's own name(s) again: entries of the document root called like it
+            for dl in (False, True):
+                for mount in (None, '/', '/static', '/a/b'):
+                    for t in ['static/x.txt', 'x.txt', 'static/', 'static', 'static/static/x.txt', 'sub/staticfile.txt', 'subfile.txt', 'a/b/x.txt', 'a/x.txt', 'a/b/', 'a/b',
+                              'a/b/a/b/x.txt', 'static/nonexistent', 'a/b/nonexistent', 'a/static/x.txt']:
+                        cases.append(path_case(fe, li, mount, dl, t.split('/')))
+        for mount in ('/static', '/a/b'):
+            for fname, specs in (('static/x.txt', ['0-5']), ('a/b/x.txt', ['-6']), ('sub/staticfile.txt', ['2-4', '8-9'])):
+                cases.append(range_case(fe, 0, mount, fname, specs))
     # no default documents configured (defaults=() / []): directories are listed (or refused), never taken from anywhere else
     for fe in ('http', 'direct'):
         for li in (0, 1):
